@@ -265,6 +265,12 @@ def run(tier, t0):
     n = 1500 if tier == 'quick' else 20000
     m = core.parallel(PID, [(w_doc, dict())] + [(w_spends, dict(examples=n)) for _ in range(W)])
     cells = [k for k in m.counters if k.startswith('cell:')]
+    if tier == 'thorough':
+        # every output type must have been exercised valid and under every corruption that applies to it at least once
+        have = set(k[5:] for k in cells)
+        missing = [t + '/valid' for t in S.TYPES if t + '/valid' not in have]
+        if missing:
+            m.errors.append('thorough tier left output-type cells empty: %r' % missing)
     return core.finish(PID, tier, m, RULE, t0, min_nontrivial=2000 if tier == 'quick' else 80000, extra=dict(type_corruption_cells=len(cells)),
                        assumptions=['reference VerifyScript (vf/ref/verify.py) validated on the six real-chain pairs', 'flag modifications range over consistent sets only (CLEANSTACK => WITNESS => P2SH, TAPROOT => WITNESS)',
                                     'tree verdict = set-up ok, no error to the end, final stack non-empty with true top, exactly one element for witness outputs and whenever CLEANSTACK is set'])
